@@ -8,7 +8,9 @@ CONSTANTS
  KeyIds = {1,2,3,4,5,6,7,8}
  MaxOps = 0
  KeepHist = FALSE
-INVARIANTS TypeOK RcOK NoDangling Acyclic ObjSorted
-PROPERTIES AssignOK ScalarOK CloneOK Independent
+ OpSet = {}
+ WideObs = FALSE
+INVARIANTS TypeOK RcOK NoDangling Acyclic ObjSorted EnumOK
+PROPERTIES AssignOK ScalarOK CloneOK Independent TypedOK EnumShapeOK
 POSTCONDITION TraceAccepted
 CHECK_DEADLOCK FALSE
